@@ -468,6 +468,10 @@ where
             break;
         }
     }
+    if tie && (add_5 || boundary != I::ZERO) {
+        // the digits ran out before the expansion of the tie point did: the literal lies below the tie
+        return Some(floor);
+    }
     if tie && !floor.is_odd() {
         return Some(floor);
     }
